@@ -116,6 +116,22 @@ def generate(tier, rng):
                                                        rng.choice(ROUNDS), rng.choice(OVFS), L(a), L(b))
 
 
+    # array operands of at most 24 bits (every value fits single precision, so the operand may have been born from float32 data) whose
+    # quotient or remainder needs more than 24 significant bits, by the value method
+    for _ in range(200 if tier == 'quick' else 5000):
+        sx, sy = rng.random() < 0.5, rng.random() < 0.5
+        nx, ny = rng.randint(16, 24), rng.randint(8, 20)
+        x = (sx, nx, rng.randint(0, nx)); y = (sy, ny, rng.randint(0, ny))
+        op = rng.choice(['truediv', 'floordiv', 'mod'])
+        if result_word(op, x, y) > 53:
+            continue
+        lox, hix = lims(sx, nx); loy, hiy = lims(sy, ny)
+        k = rng.choice([2, 3, 4])
+        a = [rng.choice([hix, lox, rng.randint(lox, hix), rng.randint(hix >> 1, hix)]) for _ in range(k)]
+        b = [rng.choice([hiy, 3, 7, rng.randint(loy, hiy)]) or 1 for _ in range(k)]
+        yield 'DV %s repr %s %s %s %s %s %s %s' % (op, rng.choice(['operator', 'function']), fm(x), fm(y), rng.choice(ROUNDS), rng.choice(OVFS), L(a), L(b))
+
+
 def nontrivial(full_line, model):
     return True
 
